@@ -9,6 +9,8 @@ Grammar (line oriented; '#' starts a comment line; indentation continues a claus
     ret <ident>                              name for the return value (default r)
     external -- reason                       R10: keep the text, #[verifier::external_body]
     rule R13 | rule R14                      statement desugarings applied in this function
+    stake P..                                properties that depend on this function's body although no clause can say so:
+                                             if the function leaves the verifier's subset they become UNDECIDED
     fnattr <text>                            extra attribute text placed before the fn
     sigspec <text>                           raw text placed after the signature (e.g. opens_invariants none no_unwind)
     requires|ensures|decreases NAME [P..]: <expr>
@@ -51,6 +53,7 @@ class Fn:
         self.ret = "r"
         self.external = None
         self.rules = []
+        self.stake = []
         self.fnattr = []
         self.sigspec = []
         self.clauses = []
@@ -117,7 +120,7 @@ def parse(path):
             cur_target = lp
             last_clause = None
         elif s.startswith("@ghost "):
-            m = re.match(r"@ghost\s+([A-Za-z0-9_.#]+)\s+\[([A-Za-z0-9 ,]*)\]\s+(before|after)\s+`(.*)`\s*(mandatory)?$", s)
+            m = re.match(r"@ghost\s+([A-Za-z0-9_.#]+)\s+\[([A-Za-z0-9 ,]*)\]\s+(before|after|before-stmt)\s+`(.*)`\s*(mandatory)?$", s)
             if not m:
                 err("bad @ghost")
             g = Ghost(m.group(1), m.group(2).replace(",", " ").split(), m.group(3), m.group(4), bool(m.group(5)))
@@ -150,6 +153,8 @@ def parse(path):
                 cur_target.ret = s.split()[1]
             elif isinstance(cur_target, Fn) and s.startswith("external"):
                 cur_target.external = s.partition("--")[2].strip() or "outside the verifier's subset"
+            elif isinstance(cur_target, Fn) and s.startswith("stake "):
+                cur_target.stake += s.split()[1:]
             elif isinstance(cur_target, Fn) and s.startswith("rule "):
                 cur_target.rules.append(s.split()[1])
             elif isinstance(cur_target, Fn) and s.startswith("fnattr "):
